@@ -160,6 +160,8 @@ def check_sequences(ctx, ad):
             and rng.random() < 0.7:
         # zero-length links between distinct nodes
         W = np.array(spec["attrs"]["lw"], float)
+        if rng.random() < 0.5:
+            W = W * 4            # integer lengths: distances hit N, N - 1, ...
         idx = [(i, j) for i in range(len(W)) for j in range(i) if W[i, j]]
         for i, j in idx:
             if rng.random() < 0.4:
